@@ -353,6 +353,23 @@ func runCase(c *core.Case) {
 				fs = append(fs, rc.F(113, enc(0)))
 			}
 		}
+		// the ban list of a long-lived server: more than 255 entries, permanent and (still running) temporary ones, for
+		// other addresses. A new ban must leave every one of them in force.
+		var oldTemp []string
+		if mode != "kick" && r.Chance(1, 6) {
+			for i := 0; i < 262+r.Intn(40); i++ {
+				oip := fmt.Sprintf("198.%d.%d.%d", 18+i/250, r.Intn(256), 1+i%250)
+				if i%3 == 0 {
+					u := time.Now().Add(time.Duration(8+r.Intn(20)) * time.Minute)
+					srv.S.BanList.Add(oip, &u)
+					oldTemp = append(oldTemp, oip)
+				} else {
+					srv.S.BanList.Add(oip, nil)
+				}
+			}
+			c.Count("cases_with_more_than_255_earlier_bans", 1)
+			desc += "/long-ban-list"
+		}
 		tBefore := time.Now()
 		rep, ok := adm.Call(110, fs...)
 		tAfter := time.Now()
@@ -439,6 +456,19 @@ func runCase(c *core.Case) {
 			}
 			if !diskHas || diskUntil == nil || diskUntil.Before(lo.Add(-time.Second)) || diskUntil.After(hi.Add(time.Second)) {
 				c.Fail("C17/ban/temporary-not-on-disk", "temporary ban of %s on disk: present=%v until=%v, want within [%v, %v]\nfile:\n%s", ip, diskHas, diskUntil, lo, hi, raw)
+			}
+		}
+		if len(oldTemp) > 0 {
+			raw, _ := os.ReadFile(banFile)
+			var onDisk map[string]*time.Time
+			yaml.Unmarshal(raw, &onDisk)
+			for _, oip := range oldTemp {
+				isB, _ := srv.S.BanList.IsBanned(oip)
+				_, has := onDisk[oip]
+				if !isB || !has {
+					c.Fail("C17/ban/earlier-temporary-ban-dropped", "%s of %s on a server with %d earlier ban entries: the temporary ban of %s (still running for minutes) is no longer in force: memory banned=%v, on disk=%v", mode, ip, len(onDisk), oip, isB, has)
+					break
+				}
 			}
 		}
 	case "inject-past":
